@@ -905,7 +905,15 @@ def gen_driver(spec) -> str:
     text = text.replace('@COMP_T@', _cpp(mdl.enc['fqn']))
     text = text.replace('@STATIC_ASSERTS@', _gen_static_asserts(mdl))
     if spec.get('multiclient'):
-        text += f'\nconst {_cpp(spec["support_ns"])}::ILog g_log{{}};\n'
+        ilog = _cpp(spec["support_ns"]) + '::ILog'
+        # threaded build: the selector's own log (`Select/<id>`, `Deselect/<id>`, warnings) goes into the trace, so that
+        # the cause of a lost out-event can be attributed; the deterministic build keeps the muted default
+        text += ('\n#ifdef VT_THREADED\n'
+                 f'const {ilog} g_log{{[](auto m) {{ vt::emit("log " + std::string(m)); }}, '
+                 '[](auto m) { vt::emit("log " + std::string(m)); }, [](auto m) { vt::emit("log " + std::string(m)); }};\n'
+                 '#else\n'
+                 f'const {ilog} g_log{{}};\n'
+                 '#endif\n')
     text += f'\nconst std::size_t MAX_FORMALS = {mdl.max_formals};\n\n'
     text += _gen_invokers(mdl) + '\n' + _gen_port_ops(mdl) + '\n' + _gen_conc(mdl)
     text += _DRIVER_EPILOGUE.replace('@CTOR_ARGS@', ctor_args)
